@@ -17,8 +17,11 @@
 (* chain, about key aliases, or about out-of-range values.                                 *)
 EXTENDS Integers, Sequences, FiniteSets
 
-Settings == {"ttl", "port", "token", "pow", "dir", "persistent"}
-DefaultCode(s) == IF s = "persistent" THEN 2 ELSE 0
+\* "aap" = control.advertise_allow_private: a boolean the loader keeps WITHOUT a was-it-set flag (a different storage shape from
+\* the other settings); observed only by the drivers that report it (eff may lack it)
+Settings == {"ttl", "port", "token", "pow", "dir", "persistent", "aap"}
+Booleans == {"persistent", "aap"}
+DefaultCode(s) == IF s \in Booleans THEN 2 ELSE 0
 
 \* which profile is selected: --profile beats the environment's `profile` key, which beats
 \* the name "default" (profile selection follows the same flags > environment > default order)
@@ -55,7 +58,7 @@ Clauses(status, layers, outcome, eff, sideBroken) ==
     IF outcome = "hang" THEN {"C32.hang"}
     ELSE IF status = "cycle" THEN (IF outcome = "error" THEN {} ELSE {"C32.cycle-not-reported"})
     ELSE IF status = "missing" THEN (IF outcome = "error" THEN {} ELSE {"C32.missing-profile-not-reported"})
-    ELSE IF outcome = "ok" THEN {"C32.wrong-winner/" \o s : s \in {t \in Settings : eff[t] # Effective(layers, t)}}
+    ELSE IF outcome = "ok" THEN {"C32.wrong-winner/" \o s : s \in {t \in Settings \cap DOMAIN eff : eff[t] # Effective(layers, t)}}
     ELSE IF sideBroken /\ outcome = "error" THEN {}
     ELSE {"C32.valid-config-rejected"}
 =============================================================================
